@@ -10,7 +10,7 @@ namespace Dump
 
 mutual
 def finalCV (ff : Nat → Bytes) : CV → Bytes
-  | .dbl b => ff b
+  | .dbl b => dblText (ff b)
   | .int i => fmtInt i
   | .lit v => 34 :: (qEsc v ++ [34])
   | .ident s => s
@@ -71,16 +71,9 @@ theorem dropP_cons_true (p : Nat → Bool) (c : Nat) (s : Bytes) (h : p c = true
 
 def IdentOK (s : Bytes) : Prop := ∃ c r, s = c :: r ∧ isLetter c = true ∧ r.all isIdChar = true
 
-def hasDot (t : Bytes) : Bool := t.any (· == 46)
-
-def textInt (t : Bytes) : Int :=
-  match t with
-  | 45 :: ds => -(decVal ds : Int)
-  | ds => (decVal ds : Int)
-
-/-- what the reader returns for a dumped value: a double written without fractional part comes back as
-    the integer its digits denote -/
-def rereadDbl (t : Bytes) (b : Nat) : CV := if hasDot t then .dbl b else .int (textInt t)
+/-- what the reader returns for a dumped value (kept as a function for the statements below; it is the
+    identity since doubles are always written with a fractional part, see `reread_id`) -/
+def rereadDbl (_t : Bytes) (b : Nat) : CV := .dbl b
 
 mutual
 def reread (ff : Nat → Bytes) : CV → CV
@@ -99,13 +92,9 @@ def rereadPairs (ff : Nat → Bytes) : List (CV × CV) → List (CV × CV)
   | (k, v) :: r => (reread ff k, reread ff v) :: rereadPairs ff r
 end
 
-/-- integral doubles must fit int64 to be read back at all -/
-def FitsInt (t : Bytes) : Prop :=
-  -9223372036854775808 ≤ textInt t ∧ textInt t < 9223372036854775808
-
 mutual
 def GoodCV (ff : Nat → Bytes) (pf : Bytes → Nat) : CV → Prop
-  | .dbl b => Nonempty (FShape (ff b)) ∧ pf (ff b) = b ∧ (hasDot (ff b) = false → FitsInt (ff b))
+  | .dbl b => Nonempty (FShape (ff b)) ∧ pf (dblText (ff b)) = b
   | .int i => -9223372036854775808 ≤ i ∧ i < 9223372036854775808
   | .lit v => LexSafe v
   | .ident s => IdentOK s
@@ -157,21 +146,36 @@ theorem fshape_hasDot {t : Bytes} (sh : FShape t) : hasDot t = !sh.fp.isEmpty :=
   | nil => cases neg <;> simp [hasDot, h1]
   | cons f fp => cases neg <;> simp [hasDot]
 
-theorem fshape_textInt {t : Bytes} (sh : FShape t) (he : sh.fp = []) :
-    textInt t = if sh.neg then -(decVal sh.ip : Int) else (decVal sh.ip : Int) := by
-  obtain ⟨neg, ip, fp, heq, hip, hfp⟩ := sh
-  simp only at he; subst he
-  obtain ⟨d, r, hdr, hd⟩ := canon_head hip
-  cases neg with
-  | true => simp at heq; subst heq; simp [textInt]
-  | false =>
-    simp at heq; subst heq; subst hdr
-    have : d ≠ 45 := by intro e; subst e; simp [isDigit] at hd
-    simp only [Bool.false_eq_true, if_false]
-    unfold textInt
-    split
-    · rename_i ds heq; injection heq with h1 _; exact absurd h1 this
-    · rfl
+/-- the written text of a double always has the shape of a double literal with a fractional part -/
+def fshapeDbl {t : Bytes} (sh : FShape t) : FShape (dblText t) :=
+  if h : sh.fp = [] then
+    { neg := sh.neg, ip := sh.ip, fp := [48]
+      eq := by
+        have hd : hasDot t = false := by rw [fshape_hasDot sh, h]; rfl
+        have := sh.eq
+        simp only [h, List.isEmpty_nil, if_true, List.append_nil] at this
+        simp only [dblText, hd, Bool.false_eq_true, if_false, List.isEmpty_cons]
+        exact congrArg (fun x => x ++ [46, 48]) this
+      ipCanon := sh.ipCanon
+      fpDigits := by decide }
+  else
+    { neg := sh.neg, ip := sh.ip, fp := sh.fp
+      eq := by
+        have hd : hasDot t = true := by
+          rw [fshape_hasDot sh]
+          cases h' : sh.fp with
+          | nil => exact absurd h' h
+          | cons _ _ => rfl
+        simp only [dblText, hd, if_true]
+        exact sh.eq
+      ipCanon := sh.ipCanon
+      fpDigits := sh.fpDigits }
+
+theorem fshapeDbl_fp {t : Bytes} (sh : FShape t) : (fshapeDbl sh).fp ≠ [] := by
+  unfold fshapeDbl
+  split
+  · simp
+  · assumption
 
 theorem fshape_head {t : Bytes} (sh : FShape t) : ∃ c r, t = c :: r ∧ (isDigit c = true ∨ c = 45) := by
   obtain ⟨neg, ip, fp, heq, hip, hfp⟩ := sh
@@ -193,8 +197,8 @@ theorem finalCV_head (ff : Nat → Bytes) (pf : Bytes → Nat) (cv : CV) (h : Go
     ∃ c t, finalCV ff cv = c :: t ∧ ValStart c := by
   cases cv with
   | dbl b =>
-    obtain ⟨⟨sh⟩, _, _⟩ := (by simpa [GoodCV] using h : Nonempty (FShape (ff b)) ∧ _ ∧ _)
-    obtain ⟨c, r, hcr, hc⟩ := fshape_head sh
+    obtain ⟨⟨sh⟩, _⟩ := (by simpa [GoodCV] using h : Nonempty (FShape (ff b)) ∧ _)
+    obtain ⟨c, r, hcr, hc⟩ := fshape_head (fshapeDbl sh)
     exact ⟨c, r, by simp [finalCV, hcr], by rcases hc with hc | hc; exact Or.inl hc; exact Or.inr (Or.inl hc)⟩
   | int i =>
     obtain ⟨c, r, hcr, hc⟩ := fmtInt_head i
@@ -350,39 +354,12 @@ theorem readCV_leaf (ff : Nat → Bytes) (pf : Bytes → Nat) (cv : CV) (hleaf :
     readCV pf (f + 1) (finalCV ff cv ++ rest) = some (reread ff cv, skipIndent rest) := by
   cases cv with
   | dbl b =>
-    obtain ⟨⟨sh⟩, hrt, hfit⟩ := (by simpa [GoodCV] using hg : Nonempty (FShape (ff b)) ∧ _ ∧ _)
-    obtain ⟨c, r, hcr, hc⟩ := fshape_head sh
+    obtain ⟨⟨sh⟩, hrt⟩ := (by simpa [GoodCV] using hg : Nonempty (FShape (ff b)) ∧ _)
+    obtain ⟨c, r, hcr, hc⟩ := fshape_head (fshapeDbl sh)
     simp only [finalCV, reread, rereadDbl]
-    have hdot := fshape_hasDot sh
-    by_cases hfp : sh.fp = []
-    · have hd : hasDot (ff b) = false := by rw [hdot, hfp]; rfl
-      have hfi := hfit hd
-      have hn := readNumber_fshape_int pf (ff b) sh hfp rest ht.sep
-      rw [parseInt0_canon _ _ sh.ipCanon] at hn
-      have hti := fshape_textInt sh hfp
-      simp only [hd, Bool.false_eq_true, if_false]
-      obtain ⟨hlo, hhi⟩ := hfi
-      rw [hti] at hlo hhi ⊢
-      have hnum : readNumber pf (ff b ++ rest) = (.int (if sh.neg then -(decVal sh.ip : Int) else (decVal sh.ip : Int)), rest) := by
-        rw [hn]
-        cases hneg : sh.neg with
-        | true =>
-          simp only [hneg, if_true] at hlo hhi ⊢
-          have : decVal sh.ip ≤ 9223372036854775808 := by omega
-          simp [this]
-        | false =>
-          simp only [hneg, Bool.false_eq_true, if_false] at hlo hhi ⊢
-          have : decVal sh.ip < 9223372036854775808 := by omega
-          simp [this]
-      exact readCV_num_int' pf f _ rest rest _ ⟨c, r, hcr, hc⟩ hnum
-    · have hd : hasDot (ff b) = true := by
-        rw [hdot]; cases h : sh.fp with
-        | nil => exact absurd h hfp
-        | cons _ _ => rfl
-      have hn := readNumber_fshape_frac pf (ff b) sh hfp rest ht.sepD
-      rw [hrt] at hn
-      simp only [hd, if_true]
-      exact readCV_num_dbl' pf f _ rest rest b ⟨c, r, hcr, hc⟩ hn
+    have hn := readNumber_fshape_frac pf (dblText (ff b)) (fshapeDbl sh) (fshapeDbl_fp sh) rest ht.sepD
+    rw [hrt] at hn
+    exact readCV_num_dbl' pf f _ rest rest b ⟨c, r, hcr, hc⟩ hn
   | int i =>
     obtain ⟨hlo, hhi⟩ := (by simpa [GoodCV] using hg : -9223372036854775808 ≤ i ∧ i < 9223372036854775808)
     obtain ⟨c, r, hcr, hc⟩ := fmtInt_head i
@@ -593,7 +570,7 @@ namespace Dump
 
 mutual
 def cvToks (ff : Nat → Bytes) : CV → List Tok
-  | .dbl b => (ff b).map tk
+  | .dbl b => (dblText (ff b)).map tk
   | .int i => (fmtInt i).map tk
   | .lit v => litToks v
   | .ident s => s.map tk
@@ -681,7 +658,7 @@ end
 /- values whose dumped text is free of accidental placeholder matches -/
 mutual
 def SafeCV (ff : Nat → Bytes) : CV → Prop
-  | .dbl b => textInert (ff b) = true
+  | .dbl b => textInert (dblText (ff b)) = true
   | .int _ => True
   | .lit v => DumpSafe v = true
   | .ident s => textInert s = true
@@ -1023,6 +1000,23 @@ end Dump
 
 /-! ### composition: a value followed by an annotation list (tail of a constant / field definition) -/
 namespace Dump
+
+mutual
+theorem reread_id (ff : Nat → Bytes) : ∀ cv : CV, reread ff cv = cv
+  | .dbl _ => rfl
+  | .int _ => rfl
+  | .lit _ => rfl
+  | .ident _ => rfl
+  | .list l => by simp [reread, rereadItems_id ff l]
+  | .map m => by simp [reread, rereadPairs_id ff m]
+  | .unset => rfl
+theorem rereadItems_id (ff : Nat → Bytes) : ∀ l : List CV, rereadItems ff l = l
+  | [] => rfl
+  | v :: r => by simp [rereadItems, reread_id ff v, rereadItems_id ff r]
+theorem rereadPairs_id (ff : Nat → Bytes) : ∀ m : List (CV × CV), rereadPairs ff m = m
+  | [] => rfl
+  | (k, v) :: r => by simp [rereadPairs, reread_id ff k, reread_id ff v, rereadPairs_id ff r]
+end
 
 theorem identOK_inert {s : Bytes} (h : IdentOK s) : textInert s = true := by
   obtain ⟨c, r, rfl, hc, hr⟩ := h
